@@ -33,7 +33,8 @@ class Query:
     def __init__(self, key, harness, entry, defines=None, lowering='scalar', libs=(), models=(), stubs=None,
                  unwind=8, backends=('minisat', 'kissat', 'cvc5int'), cap=120, expect='pass', abort_fails=False,
                  extra=(), validate=False, witness=True, canary_of=None, externs=(), noops=(), sample=None,
-                 unwindset=(), native_sweep=200, object_bits=14, cflags=(), leak=False, finding_key=None, fp_uf=False, mdefs=None, native_libs=()):
+                 unwindset=(), native_sweep=200, object_bits=14, cflags=(), leak=False, finding_key=None, fp_uf=False, mdefs=None, native_libs=(), native_probe=False):
+        self.native_probe = native_probe
         self.native_libs = list(native_libs)
         self.fp_uf = fp_uf
         self.mdefs = dict(mdefs or {})
@@ -338,7 +339,7 @@ def witness_run(gbw, q, work, logdir):
     return ok, round(time.time() - t0, 2)
 
 
-def native_build(q, work, prep, sanitize=False):
+def native_build(q, work, prep, sanitize=False, only_real=False):
     """exe A: harness + real sources compiled by g++ (no translation). exe B: generated C compiled by gcc."""
     qd = prep['dir']
     rt = os.path.join(HERE, 'native', 'symx_native.cpp')
@@ -379,6 +380,8 @@ def native_build(q, work, prep, sanitize=False):
     rto = compile_obj(work, rt, 'scalar', {}, (ent,), tag=q.entry)
     exeA = os.path.join(qd, 'native_real')
     must(['g++', '-o', exeA] + objs + [rto, '-lm', '-lpthread', '-no-pie', '-Wl,--unresolved-symbols=ignore-all', '-Wl,-z,lazy'])
+    if only_real:
+        return exeA, None
     exeB = os.path.join(qd, 'native_gen')
     ob = os.path.join(qd, 'q.native.o')
     must(['gcc', '-std=gnu11', '-O1', '-w', '-I' + os.path.join(HERE, 'include'), '-c', prep['c'], '-o', ob] + [x for x in LOWERING[q.lowering] if x.startswith('-m')])
@@ -479,6 +482,14 @@ def run_query(args):
                 rec['witness_s'] = ws
             if q.validate:
                 rec['validation'] = validate(q, work, prep, seed)
+            if q.native_probe:
+                # guard for a modelling assumption (e.g. A3, the text layer): the same harness, natively, on the real sources
+                exeA, _ = native_build(q, work, prep, only_real=True)
+                env = dict(os.environ, SYMX_SWEEP=str(q.native_sweep), SYMX_SEED=str(seed))
+                ra = run([exeA], env=env, timeout=300)
+                fails = [l for l in ra.stdout.split('\n') if ' fails=' in l and ' fails=0 ' not in l]
+                m = re.search(r'SWEEP completed=(\d+)', ra.stdout)
+                rec['native_probe'] = {'failing_runs': fails[:3], 'completed': int(m.group(1)) if m else 0, 'exe': exeA}
         if q.expect == 'pass' and res['verdict'] == 'fail':
             # counterexample: replay against the real sources
             vals = None
@@ -501,6 +512,27 @@ def run_query(args):
     except Exception as e:
         rec['verdict'] = 'error'
         rec['detail'] = traceback.format_exc()[-2500:]
+        # the code could not be encoded (e.g. a change pulled library code outside the translator's reach into the query).
+        # Not a verdict - but run the same harness natively on the real sources: a failing CHECK there is a concrete,
+        # replayable violation and is reported as such (labelled native_fallback in the evidence); otherwise inconclusive.
+        if q.expect == 'pass':
+            try:
+                qd = os.path.join(work, 'q', q.slug())
+                os.makedirs(qd, exist_ok=True)
+                exeA, _ = native_build(q, work, {'dir': qd}, only_real=True)
+                env = dict(os.environ, SYMX_SWEEP=str(max(q.native_sweep, 300)), SYMX_SEED=str(seed))
+                ra = run([exeA], env=env, timeout=300)
+                fails = [l for l in ra.stdout.split('\n') if ' fails=' in l and ' fails=0 ' not in l]
+                rec['native_fallback'] = {'ran': True, 'failing_runs': fails[:3], 'rc': ra.returncode}
+                if fails:
+                    d = os.path.join(replaydir, q.slug())
+                    shutil.rmtree(d, ignore_errors=True)
+                    os.makedirs(d)
+                    shutil.copy(exeA, os.path.join(d, 'replay_real'))
+                    open(os.path.join(d, 'README'), 'w').write('native fallback: SYMX_SWEEP=%s SYMX_SEED=%d ./replay_real\n%s\n' % (env['SYMX_SWEEP'], seed, fails[0]))
+                    rec['native_fallback']['dir'] = d
+            except Exception as e2:
+                rec['native_fallback'] = {'ran': False, 'error': str(e2)[-400:]}
     rec['wall_s'] = round(time.time() - t0, 2)
     return rec
 
@@ -584,6 +616,9 @@ def run_property(pid, spec, tier, seed):
         if v == 'pass':
             if q.witness and not r.get('witness_ok'):
                 inconclusive.append((r, 'vacuous: reachability witness did not fail'))
+            npb = r.get('native_probe')
+            if npb and npb['failing_runs']:
+                violations.append((r, 'the model holds, but the same harness run natively on the real sources (outside the model: see assumptions) fails a CHECK: %s' % npb['failing_runs'][0], npb.get('exe')))
             val = r.get('validation')
             if val is not None:
                 if not val['same']:
@@ -605,6 +640,10 @@ def run_property(pid, spec, tier, seed):
                 violations.append((r, what, rp.get('dir')))
             else:
                 inconclusive.append((r, 'counterexample not reproduced on the real build (%s): %s' % (rp.get('rc', rp.get('error')), what)))
+            continue
+        nf = r.get('native_fallback') or {}
+        if nf.get('failing_runs'):
+            violations.append((r, 'encoding failed (%s); the same harness run natively on the real sources fails: %s' % (str(r.get('detail')).strip().split('\n')[-1][:200], nf['failing_runs'][0]), nf.get('dir')))
             continue
         inconclusive.append((r, 'no verdict: %s %s' % (v, str(r.get('detail'))[-600:])))
     wall = time.time() - t0
